@@ -532,6 +532,6 @@ def check_emptyset(case, ctx):
 def subs(tier):
     return [
         Enumerated("exh", check_exh, cases=_exh_cases),
-        Generated("random", check_random, strategy=_random_cases(), quick=1500, thorough=150000),
+        Generated("random", check_random, strategy=_random_cases(), quick=4000, thorough=150000),
         Enumerated("emptyset", check_emptyset, cases=_es_cases),
     ]
